@@ -260,7 +260,7 @@ func (sc *c15Scenario) Key(w *simWorld) string {
 func TestVerif_C15_Sim(t *testing.T) {
 	r := vr.Start(t, "C15", "sim")
 	defer r.Finish()
-	r.Rule = "explicit-state BFS over histories of route announcements/withdrawals, import/export policy changes from a 6-entry catalogue (accept all, reject prefix, reject community, set MED, prepend, add community), soft reset in/out/both and ROUTE-REFRESH, on the real daemon in virtual time; in every state whose direction is clean the daemon's Loc-RIB / each bot's accumulated view is compared with a from-scratch evaluation under the current policy; non-trivial = distinct canonical daemon state"
+	r.Rule = "explicit-state BFS over histories of route announcements/withdrawals, import/export policy changes from a 7-entry catalogue (accept all, reject prefix, reject community, set MED, prepend, add community, remove a community), soft reset in/out/both and ROUTE-REFRESH, on the real daemon in virtual time; in every state whose direction is clean the daemon's Loc-RIB / each bot's accumulated view is compared with a from-scratch evaluation under the current policy; non-trivial = distinct canonical daemon state"
 	if r.ReplayPath() != "" {
 		var rp simReplay
 		if err := r.LoadReplay(&rp); err != nil {
@@ -291,6 +291,8 @@ func TestVerif_C15_Sim(t *testing.T) {
 	// all" and "reject community", all three soft resets — a replacement that the export policy rejects
 	// must take the previous version away from the ADD-PATH peer as well
 	simExplore(t, r, simExploreCfg{Scenario: "softreset", Arg: "cfg=ea;npfx=1;nvar=2;src=0;pols=02;norr;noflap;noapi;nopeers", Depth: deep, Budget: budget})
+	// import policy "remove a community" against "accept all": a repeated reset must change nothing
+	simExplore(t, r, simExploreCfg{Scenario: "softreset", Arg: "cfg=ee;npfx=1;nvar=2;src=0;pols=06;norr;noflap;noapi;nopeers;importonly", Depth: deep, Budget: budget})
 	// third sharp driver: export policy switched between "accept all" and "reject community", soft reset out
 	// and ROUTE-REFRESH from the receiver: what a refresh hands over must be remembered as sent
 	simExplore(t, r, simExploreCfg{Scenario: "softreset", Arg: "cfg=ee;npfx=1;nvar=2;src=0;pols=02;noflap;noapi;nopeers;exportonly", Depth: deep + 2, Budget: budget})
